@@ -1,12 +1,12 @@
 ---- MODULE TFControl_Gen ----
 EXTENDS TFControl, Json
 GEN_Cfgs == {c \in [so : {"shampoo", "sketchy"}, SF : 1..3, PF : 1..3, Start : {0, 2, 3},
-                   graft : BOOLEAN, skipped : BOOLEAN] :
-                   CfgOK(c) /\ (~c.graft => c.Start = 0) /\ (c.skipped => c.Start = 0 /\ c.SF = 1 /\ c.PF = 1)}
+                   graft : BOOLEAN, skipped : BOOLEAN, ekfac : BOOLEAN] :
+                   CfgOK(c) /\ (c.ekfac => (c.Start = 0 /\ ~c.skipped)) /\ (~c.graft => c.Start = 0) /\ (c.skipped => c.Start = 0 /\ c.SF = 1 /\ c.PF = 1)}
 VARIABLE hist
 gvars == <<vars, hist>>
 Obs == [ca |-> count', sc |-> statsProv' # statsProv, rc |-> rootsProv' # rootsProv,
-        kind |-> kind', stats |-> statsProv', roots |-> rootsProv']
+        kind |-> kind', stats |-> statsProv', roots |-> rootsProv', svd |-> svdAt' # svdAt]
 GInit == Init /\ hist = <<>>
 GNext == Update /\ hist' = Append(hist, Obs)
 GSpec == GInit /\ [][GNext]_gvars
